@@ -2886,6 +2886,14 @@ func (lg *ledger) boundFacts(b *ssa.BasicBlock) (out []diffC) {
 						out = append(out, diffC{lg.key(x), lk, -1}, diffC{"0", lg.key(x), 1}) // -1 <= r <= len-1
 					case "Index", "LastIndex":
 						out = append(out, diffC{lg.key(x), lk, 0}, diffC{"0", lg.key(x), 1}) // -1 <= r <= len
+						// a constant separator of k bytes fits behind the position: r <= len - k
+						if len(x.Call.Args) == 2 {
+							if sc, isC := x.Call.Args[1].(*ssa.Const); isC && sc.Value != nil && sc.Value.Kind() == constant.String {
+								if k := int64(len(constant.StringVal(sc.Value))); k >= 1 {
+									out = append(out, diffC{lg.key(x), lk, -k})
+								}
+							}
+						}
 					case "Count":
 						out = append(out, diffC{"0", lg.key(x), 0}, diffC{lg.key(x), lk, 1}) // 0 <= r <= len+1
 					}
